@@ -16,8 +16,15 @@ type Full struct {
 	usedSet  map[string]bool
 	MaxStmts int
 	Depth    int
-	// Rich adds alternative literal spellings (non-ASCII strings, leading zeros, ...)
-	Rich bool
+	// VarsFree makes variable alternatives cost nothing (variable-rich scripts)
+	VarsFree bool
+}
+
+func (g *Full) vc() int {
+	if g.VarsFree {
+		return 0
+	}
+	return 1
 }
 
 var poolType = map[string]string{
@@ -40,7 +47,7 @@ func (g *Full) pick(costs ...int) int { return g.e.ChooseW(len(costs), costs) }
 func (g *Full) expr(typ string, depth int) gen.Expr {
 	switch typ {
 	case "account":
-		switch g.pick(0, 1, 1, 1) {
+		switch g.pick(0, 1, g.vc(), 1) {
 		case 0:
 			return gen.Acct("a")
 		case 1:
@@ -51,7 +58,7 @@ func (g *Full) expr(typ string, depth int) gen.Expr {
 			return g.v("acd")
 		}
 	case "asset":
-		switch g.pick(0, 1, 1) {
+		switch g.pick(0, 1, g.vc()) {
 		case 0:
 			return gen.Asset("USD")
 		case 1:
@@ -61,7 +68,7 @@ func (g *Full) expr(typ string, depth int) gen.Expr {
 		}
 	case "number":
 		if depth > 0 {
-			switch g.pick(0, 1, 1, 1, 1, 1, 1) {
+			switch g.pick(0, 1, 1, 1, g.vc(), 1, 1) {
 			case 0:
 				return gen.Num("5")
 			case 1:
@@ -81,7 +88,7 @@ func (g *Full) expr(typ string, depth int) gen.Expr {
 		return g.atom("number")
 	case "monetary":
 		if depth > 0 {
-			switch g.pick(0, 1, 1, 1) {
+			switch g.pick(0, g.vc(), 1, 1) {
 			case 0:
 				return &gen.MonLit{Asset: g.expr("asset", depth-1), Amt: g.expr("number", depth-1)}
 			case 1:
@@ -94,7 +101,7 @@ func (g *Full) expr(typ string, depth int) gen.Expr {
 		}
 		return g.atom("monetary")
 	case "portion":
-		switch g.pick(0, 1, 1, 1, 1) {
+		switch g.pick(0, 1, 1, 1, g.vc()) {
 		case 0:
 			return gen.Port("1/2")
 		case 1:
@@ -107,7 +114,7 @@ func (g *Full) expr(typ string, depth int) gen.Expr {
 			return g.v("por")
 		}
 	case "string":
-		switch g.pick(0, 1, 1, 1, 1) {
+		switch g.pick(0, 1, 1, 1, g.vc()) {
 		case 0:
 			return gen.Str("k")
 		case 1:
@@ -130,7 +137,7 @@ func (g *Full) expr(typ string, depth int) gen.Expr {
 func (g *Full) atom(typ string) gen.Expr {
 	switch typ {
 	case "number":
-		switch g.pick(0, 1, 1) {
+		switch g.pick(0, 1, g.vc()) {
 		case 0:
 			return gen.Num("5")
 		case 1:
@@ -139,7 +146,7 @@ func (g *Full) atom(typ string) gen.Expr {
 			return g.v("nun")
 		}
 	case "monetary":
-		switch g.pick(0, 1) {
+		switch g.pick(0, g.vc()) {
 		case 0:
 			return gen.Mon("USD", "5")
 		default:
